@@ -30,11 +30,13 @@ def make_float_modules(pym):
 
     class MatAsm(pym.Module):
         """A(x) = A0 + sum_i x_i A_i (dense ndarray or scipy csc), the matrix class is fixed by the recipe"""
-        def _prepare(self, A0, As, sparse):
-            self.A0, self.As, self.sparse = A0, As, sparse
+        def _prepare(self, A0, As, sparse, realify=False):
+            self.A0, self.As, self.sparse, self.realify = A0, As, sparse, realify
 
         def _response(self, x):
             A = self.A0 + sum(xi * Ai for xi, Ai in zip(x, self.As))
+            if self.realify and np.iscomplexobj(A) and not np.any(A.imag):
+                A = np.ascontiguousarray(A.real)       # VALUE KIND of the matrix follows the design: real-typed matrix
             return sps.csc_matrix(A) if self.sparse else np.array(A)
 
         def _sensitivity(self, dA):
@@ -57,7 +59,7 @@ def make_float_modules(pym):
 
         def _response(self, M):
             M = M.toarray() if hasattr(M, 'toarray') else np.asarray(M)
-            return float(np.sum(self.Wt * M))
+            return float(np.real(np.sum(self.Wt * M)))
 
         def _sensitivity(self, dg):
             return self.Wt * dg
@@ -153,9 +155,72 @@ def family(rs, n, cls):
         As = [np.diag(0.5 + 0.5 * rs.random(n)) / 3 for _ in range(3)]
         base = _box([0.5] * 3, [2.0] * 3)
         alts = [('flipped', _box([-8.0] * 3, [-6.0] * 3))]
+    elif cls in ('bc', 'bcgen', 'bceig'):
+        # SPARSITY PATTERN changes at constant shape.  In A0 the dofs 0 and n-1 carry ONLY their diagonal entry (like the
+        # rows of boundary conditions); A_0 couples dof 0, A_1 couples dof n-1, A_2 varies the interior.  x_0 = 0 or
+        # x_1 = 0 EXACTLY (regimes dec0 / dec1 / decboth) decouple a dof: the decoupled/coupled partition that
+        # LDAWrapper.update analyses (get_diagonal_indices) appears, disappears and moves within one history.
+        d = 6.0 + 1.3 * np.arange(n)
+        if cls == 'bceig':      # decoupled dofs far from the lowest modes (K02: exactly singular A - lambda_i B otherwise)
+            d[0], d[n - 1] = 25.0, 28.0
+        A0 = np.diag(d)
+        for i in range(1, n - 2):
+            A0[i, i + 1] = A0[i + 1, i] = 0.7
+        C0, C1, Mi = np.zeros((n, n)), np.zeros((n, n)), np.zeros((n, n))
+        C0[0, 1] = C0[1, 0] = 0.9
+        C0[0, 2] = C0[2, 0] = 0.4
+        C1[n - 1, n - 2] = C1[n - 2, n - 1] = 0.8
+        C1[n - 1, n - 3] = C1[n - 3, n - 1] = -0.5
+        Mi[1:n - 1, 1:n - 1] = 0.2 * _sym(G[2])[1:n - 1, 1:n - 1]
+        if cls == 'bcgen':      # non-symmetric (LU, adjoint storage of LDAWrapper): same pattern, different values
+            C0[1, 0], C0[2, 0], C1[n - 2, n - 1] = -0.3, 0.6, 0.2
+            A0 = A0 + 0.4 * np.triu(A0, 1)
+            Mi[1:n - 1, 1:n - 1] = 0.2 * G[2][1:n - 1, 1:n - 1]
+        As = [C0, C1, Mi]
+        base = _box([0.5] * 3, [2.0] * 3)
+        alts = [('dec0', _box([0.0, 0.5, 0.5], [0.0, 2.0, 2.0])), ('dec1', _box([0.5, 0.0, 0.5], [2.0, 0.0, 2.0])),
+                ('decboth', _box([0.0, 0.0, 0.5], [0.0, 0.0, 2.0]))]
+    elif cls in ('kgen', 'ksym', 'kherm', 'keig'):
+        # VALUE KIND changes: A = A0 + x0 A_0 + x1 A_1 + i x2 C.  x2 = 0 EXACTLY gives a REAL-typed matrix (MatAsm with
+        # realify), x2 > 0 a complex one of the same symmetry class: kgen non-symmetric -> complex general, ksym
+        # symmetric -> complex symmetric, kherm symmetric -> complex Hermitian (C skew-symmetric), keig nearly diagonal
+        # with well separated eigenvalues (dense non-Hermitian EigenSolve)
+        if cls == 'kgen':
+            A0 = 6.0 * np.eye(n) + 0.8 * np.triu(rs.standard_normal((n, n)), 1)
+            As = [0.15 * G[0], 0.15 * G[1], 0.5j * G[2]]
+        elif cls == 'keig':
+            A0 = np.diag(3.0 + 1.7 * np.arange(n))
+            As = [0.1 * G[0], 0.1 * G[1], 0.2j * G[2]]
+        elif cls == 'ksym':
+            A0 = 6.0 * np.eye(n) + 0.3 * _sym(rs.standard_normal((n, n)))
+            As = [0.15 * _sym(G[0]), 0.15 * _sym(G[1]), 0.5j * _sym(G[2])]
+        else:
+            A0 = np.diag(3.0 + 1.7 * np.arange(n)) + 0.3 * _sym(rs.standard_normal((n, n)))
+            As = [0.15 * _sym(G[0]), 0.15 * _sym(G[1]), 0.25j * (G[2] - G[2].T)]
+        base = _box([0.5] * 3, [2.0] * 3)
+        alts = [('real', _box([0.5, 0.5, 0.0], [2.0, 2.0, 0.0])), ('real/other-rhs', _box([0.5, 0.5, 0.0], [2.0, 2.0, 0.0])),
+                ('complex/real-rhs', _box([0.5] * 3, [2.0] * 3))]
+    elif cls == 'mag':
+        # MAGNITUDE changes: A = x0 S0 + x1 S1 + x2 S2 (no constant part), positive definite; the regimes scale the WHOLE
+        # matrix by 1e-5 / 1e5 (entries stay above the absolute tolerance 1e-8 of the matrix predicates: K06)
+        A0 = np.zeros((n, n))
+        As = [1.5 * np.eye(n) + 0.3 * g @ g.T / n for g in G]
+        base = _box([0.5] * 3, [2.0] * 3)
+        alts = [('tiny', _box([0.5e-5] * 3, [2.0e-5] * 3)), ('huge', _box([0.5e5] * 3, [2.0e5] * 3))]
     else:
         raise ValueError(cls)
     return A0, As, base, alts
+
+
+def kind_alts(real, cplx, sparse):
+    """regimes of a right-hand side aligned with those of the value-kind families (kgen ...): regime 1 real matrix and
+    real rhs, 2 real matrix and COMPLEX rhs (dense only: LinSolve refuses it for a sparse real matrix, documented), 3
+    complex matrix and real rhs; the base regime is complex matrix and complex rhs"""
+    return [('real', real), ('real' if sparse else 'complex', real if sparse else cplx), ('real', real)]
+
+
+def scaled(f, c):
+    return lambda g: c * f(g)
 
 
 LINSOLVE = {
@@ -182,7 +247,25 @@ LINSOLVE = {
     # (CG divides by |b|: NaN for b = 0 in the fresh network as well -- not a matter of call history)
     'linsolve-cg-jacobi-nolda': ('sparse', 'spchol', dict(solver='cg-jacobi', lda=False, regimes=['flipped'], rhs1=True,
                                                           avoid=('zero',))),
+    # sparsity pattern changes at constant shape (decoupled dofs appear / disappear / move): partition of LDAWrapper
+    'linsolve-dense-bc': ('dense', 'bc', {}), 'linsolve-sparse-bc': ('sparse', 'bc', {}),
+    'linsolve-dense-bcgen': ('dense', 'bcgen', {}), 'linsolve-sparse-bcgen': ('sparse', 'bcgen', {}),
+    'linsolve-cg-bc': ('sparse', 'bc', dict(solver='cg')),
+    'linsolve-dense-bc-qr': ('dense', 'bcgen', dict(solver='qr')),
+    # value kind changes (real <-> complex matrix and right-hand side) within one symmetry class
+    'linsolve-dense-kgen': ('dense', 'kgen', {}), 'linsolve-sparse-kgen': ('sparse', 'kgen', {}),
+    'linsolve-dense-kgen-nolda': ('dense', 'kgen', dict(lda=False)),
+    'linsolve-dense-kgen-qr': ('dense', 'kgen', dict(solver='qr')),
+    'linsolve-dense-ksym-lu': ('dense', 'ksym', dict(solver='lu')),
+    'linsolve-sparse-ksym': ('sparse', 'ksym', {}),
+    'linsolve-sparse-ksym-lu': ('sparse', 'ksym', dict(solver='splu')),
+    'linsolve-dense-kherm-nolda': ('dense', 'kherm', dict(lda=False)),
+    # magnitude changes (whole matrix and right-hand side scaled by 1e-5 / 1e5), compared RELATIVE to the result
+    'linsolve-dense-mag': ('dense', 'mag', {}), 'linsolve-sparse-mag': ('sparse', 'mag', {}),
+    'linsolve-cg-mag': ('sparse', 'mag', dict(solver='cg')),
+    'linsolve-dense-mag-nolda': ('dense', 'mag', dict(lda=False)),
 }
+KIND = ('kgen', 'ksym', 'kherm', 'keig')
 
 
 def _design(n):
@@ -205,6 +288,7 @@ def build_lib(pym, fm, recipe, rs):
     sigs, inputs, seedable, alt, tol = {}, {}, [], {}, 1e-9
 
     avoid = ()
+    aligned, floor = False, 1.0
 
     def rhs_sampler(n, cplx=False, one=False):
         def f(g):
@@ -213,18 +297,20 @@ def build_lib(pym, fm, recipe, rs):
         return f
     if recipe in LINSOLVE:
         storage, cls, opt = LINSOLVE[recipe]
-        n = 8 if cls == 'spchol' else 5
+        n = 8 if cls == 'spchol' else 7 if cls in ('bc', 'bcgen') else 5
         A0, As, base, alts = family(rs, n, cls)
         if 'regimes' in opt:
             alts = [a for a in alts if a[0] in opt['regimes']]
-        cplx = np.iscomplexobj(A0)
+        cplx = np.iscomplexobj(A0) or cls in KIND
         x, b = S('x'), S('b')
-        mA = fm['MatAsm'](x, S('A'), A0, As, storage == 'sparse')
+        mA = fm['MatAsm'](x, S('A'), A0, As, storage == 'sparse', cls in KIND)
         kw = dict(opt.get('kw', {}))
         if opt.get('solver') == 'qr':
             kw['solver'] = pym.solvers.SolverDenseQR()
         elif opt.get('solver') == 'lu':
             kw['solver'] = pym.solvers.SolverDenseLU()
+        elif opt.get('solver') == 'splu':
+            kw['solver'] = pym.solvers.SolverSparseLU()
         elif opt.get('solver') == 'cg':
             kw['solver'] = pym.solvers.CG(tol=1e-12)
             tol = 1e-8
@@ -242,6 +328,23 @@ def build_lib(pym, fm, recipe, rs):
         sigs = dict(x=x, b=b, A=mA.sig_out[0], u=mS.sig_out[0], g=mG.sig_out[0])
         inputs = dict(x=base, b=rhs_sampler(n, cplx, bool(opt.get('rhs1'))))
         alt = dict(x=alts)
+        if cls in KIND:         # the regimes of matrix and right-hand side belong together
+            alt['b'] = kind_alts(rhs_sampler(n, False), rhs_sampler(n, True), storage == 'sparse')
+            aligned = True
+        elif cls == 'mag':      # u = A^-1 b of magnitude 1e10 / 1e-10: compared relative to the result, no absolute floor
+            alt['b'] = [('huge', scaled(rhs_sampler(n), 1e5)), ('tiny', scaled(rhs_sampler(n), 1e-5))]
+            if opt.get('solver') == 'cg':
+                # an iterative solver that starts from the previous solution cannot represent a solution 1e20 times smaller
+                # than its initial guess (CG ends with its "Maximum iterations reached" warning: no result to solver
+                # tolerance, reported as an observation): here matrix and right-hand side are scaled ALIKE
+                alt['b'] = alt['b'][::-1]
+            aligned, floor = True, 0.0
+            if opt.get('lda') is not False:
+                # LDAWrapper answers from its stored vectors when the RESIDUAL is below its tolerance 1e-7: parts of a
+                # right-hand side that are 1e-7 times smaller than the rest (a seed of order 1 next to 2 u dg of order 1e10)
+                # are answered to that tolerance only, and which vectors are stored depends on the passes made so far:
+                # "to solver tolerance" of the property
+                tol = 1e-6
         avoid = tuple(opt.get('avoid', ()))
         seedable = ['g', 'u']
         net = pym.Network(mA, mS, mG)
@@ -303,35 +406,56 @@ def build_lib(pym, fm, recipe, rs):
         seedable = ['g', 'y', 'z']
         net = pym.Network(m1, m2, m3)
     elif recipe in ('soe', 'soe-general-dense', 'soe-dense-chol', 'soe-multirhs', 'static-condensation',
-                    'static-condensation-dense', 'static-condensation-chol'):
+                    'static-condensation-dense', 'static-condensation-chol') + SOE_WIDE:
         n = 6
         cls = 'general' if recipe == 'soe-general-dense' else 'chol' if recipe.endswith('-chol') else 'spd'
+        for c in ('bcgen', 'bc', 'kgen', 'ksym', 'mag'):
+            if '-' + c + '-' in recipe + '-':
+                cls = c
         A0, As, base, alts = family(rs, n, cls)
         x = S('x')
-        mA = fm['MatAsm'](x, S('A'), A0, As, not (recipe.endswith('-dense') or recipe.endswith('-chol')))
+        dense = recipe.endswith('-dense') or recipe.endswith('-chol') or '-dense-' in recipe
+        mA = fm['MatAsm'](x, S('A'), A0, As, not dense, cls in KIND)
+        skw = dict(solver=pym.solvers.SolverSparseLU()) if recipe.endswith('-splu') else {}
         if recipe.startswith('soe'):
             bf, xp = S('bf'), S('xp')
             kw = dict(prescribed=np.array([1, 4])) if rs.random() < 0.5 else dict(free=np.array([0, 2, 3, 5]))
-            mS = pym.SystemOfEquations([mA.sig_out[0], bf, xp], [S('xx'), S('bb')], **kw)
+            mS = pym.SystemOfEquations([mA.sig_out[0], bf, xp], [S('xx'), S('bb')], **kw, **skw)
             mG = fm['SqSum'](mS.sig_out[0], S('g'))
             mH = fm['SqSum'](mS.sig_out[1], S('h'))
             sigs = dict(x=x, bf=bf, xp=xp, A=mA.sig_out[0], xx=mS.sig_out[0], bb=mS.sig_out[1], g=mG.sig_out[0], h=mH.sig_out[0])
             nr = (2,) if recipe == 'soe-multirhs' else ()
-            inputs = dict(x=base, bf=lambda g: g.standard_normal((4,) + nr), xp=lambda g: g.standard_normal((2,) + nr))
+            def vec(m, cplx=False, c=1.0):
+                return lambda g: c * (g.standard_normal((m,) + nr) + (1j * g.standard_normal((m,) + nr) if cplx else 0))
+            inputs = dict(x=base, bf=vec(4, cls in KIND), xp=vec(2, cls in KIND))
+            if cls in KIND:
+                other = dict(bf=kind_alts(vec(4), vec(4, True), not dense), xp=kind_alts(vec(2), vec(2, True), not dense))
+                aligned = True
+            elif cls == 'mag':
+                other = dict(bf=[('huge', vec(4, c=1e5)), ('tiny', vec(4, c=1e-5))], xp=[('huge', vec(2, c=1e5)), ('tiny', vec(2, c=1e-5))])
+                aligned, floor, tol = True, 0.0, 1e-6      # LDAWrapper tolerance, see linsolve-*-mag
+            else:
+                other = {}
             seedable = ['g', 'h', 'xx', 'bb']
             net = pym.Network(mA, mS, mG, mH)
         else:
-            mS = pym.StaticCondensation(mA.sig_out[0], S('Ared'), main=np.array([0, 3]), free=np.array([1, 2, 4, 5]))
+            other = {}
+            aligned = cls in KIND
+            mS = pym.StaticCondensation(mA.sig_out[0], S('Ared'), main=np.array([0, 3]), free=np.array([1, 2, 4, 5]), **skw)
             mG = fm['Frob'](mS.sig_out[0], S('g'), rs.standard_normal((2, 2)))
             sigs = dict(x=x, A=mA.sig_out[0], Ared=mS.sig_out[0], g=mG.sig_out[0])
             inputs = dict(x=base)
             seedable = ['g', 'Ared'] if not mA.sparse else ['g']
             net = pym.Network(mA, mS, mG)
-        alt = dict(x=alts)
-    elif recipe in ('eigensolve-sparse', 'eigensolve-sparse-shift', 'eigensolve-sparse-gen'):
+        alt = dict(x=alts, **other)
+    elif recipe in ('eigensolve-sparse', 'eigensolve-sparse-shift', 'eigensolve-sparse-gen', 'eigensolve-sparse-bc',
+                    'eigensolve-sparse-bc-shift'):
         n = 12
-        A0, As, base, alts = family(rs, n, 'spd')
-        A0 = A0 + np.diag(np.arange(n) * 1.3)
+        if '-bc' in recipe:     # decoupled dofs appear / disappear / move (their eigenvalues lie far above the computed ones)
+            A0, As, base, alts = family(rs, n, 'bceig')
+        else:
+            A0, As, base, alts = family(rs, n, 'spd')
+            A0 = A0 + np.diag(np.arange(n) * 1.3)
         x = S('x')
         mA = fm['MatAsm'](x, S('A'), A0, As, True)
         ins, mods = [mA.sig_out[0]], [mA]
@@ -345,7 +469,7 @@ def build_lib(pym, fm, recipe, rs):
         mods += [mE, mG]
         sigs.update(lam=mE.sig_out[0], Q=mE.sig_out[1], g=mG.sig_out[0])
         inputs = dict(x=base)
-        alt = dict(x=[('flipped', _box([-2.0] * 3, [-0.5] * 3)), ('stiff', _box([4.0] * 3, [8.0] * 3))])
+        alt = dict(x=alts if '-bc' in recipe else [('flipped', _box([-2.0] * 3, [-0.5] * 3)), ('stiff', _box([4.0] * 3, [8.0] * 3))])
         seedable = ['g', 'lam', 'Q']
         net = pym.Network(*mods)
     elif recipe == 'eigensolve-sparse-fe':
@@ -364,12 +488,14 @@ def build_lib(pym, fm, recipe, rs):
         seedable = ['g', 'lam', 'Q']
         net = pym.Network(mK, mM, mE, mG)
         tol = 1e-7      # the adjoint systems A - lambda_i B are singular by construction (K02): rounding level ~1e-9
-    elif recipe in ('eigensolve', 'eigensolve-gen', 'eigensolve-flag'):
+    elif recipe in ('eigensolve', 'eigensolve-gen', 'eigensolve-flag', 'eigensolve-kgen', 'eigensolve-kherm'):
         n = 4
-        A0, As, base, alts = family(rs, n, 'spd' if recipe == 'eigensolve-gen' else 'indef')
-        A0 = A0 + np.diag(np.arange(n) * 1.7)        # well separated eigenvalues
+        kcls = {'eigensolve-kgen': 'keig', 'eigensolve-kherm': 'kherm'}.get(recipe)
+        A0, As, base, alts = family(rs, n, kcls or ('spd' if recipe == 'eigensolve-gen' else 'indef'))
+        if not kcls:
+            A0 = A0 + np.diag(np.arange(n) * 1.7)        # well separated eigenvalues
         x = S('x')
-        mA = fm['MatAsm'](x, S('A'), A0, As, False)
+        mA = fm['MatAsm'](x, S('A'), A0, As, False, bool(kcls))
         ins, mods = [mA.sig_out[0]], [mA]
         sigs = dict(x=x, A=mA.sig_out[0])
         if recipe == 'eigensolve-gen':
@@ -382,7 +508,7 @@ def build_lib(pym, fm, recipe, rs):
         sigs.update(lam=mE.sig_out[0], Q=mE.sig_out[1], g=mG.sig_out[0])
         inputs = dict(x=base)
         # the second matrix of a generalized problem must stay positive definite: no sign flip there
-        alt = dict(x=[('stiff', _box([4.0] * 3, [8.0] * 3))] if recipe == 'eigensolve-gen' else
+        alt = dict(x=alts[:1] if kcls else [('stiff', _box([4.0] * 3, [8.0] * 3))] if recipe == 'eigensolve-gen' else
                    [('flipped', _box([-2.0] * 3, [-0.5] * 3))])
         seedable = ['g', 'lam', 'Q']
         net = pym.Network(*mods)
@@ -403,10 +529,14 @@ def build_lib(pym, fm, recipe, rs):
         net = pym.Network(m1)
     else:
         raise ValueError(recipe)
-    return dict(sigs=sigs, inputs=inputs, alt=alt, seedable=seedable, net=net, tol=tol, avoid=avoid)
+    return dict(sigs=sigs, inputs=inputs, alt=alt, seedable=seedable, net=net, tol=tol, avoid=avoid, aligned=aligned,
+                floor=floor)
 
 
-RECIPES = sorted(LINSOLVE) + [
+SOE_WIDE = ('soe-bc', 'soe-dense-bc', 'soe-dense-bcgen', 'soe-dense-kgen', 'soe-ksym-splu', 'soe-dense-mag',
+            'static-condensation-bc', 'static-condensation-dense-kgen', 'static-condensation-ksym-splu')
+RECIPES = sorted(LINSOLVE) + list(SOE_WIDE) + ['eigensolve-sparse-bc', 'eigensolve-sparse-bc-shift', 'eigensolve-kgen',
+                                                'eigensolve-kherm'] + [
     'linsolve-cg-mg', 'stiffness-linsolve', 'assemble-general', 'assemble-poisson', 'filterconv', 'filterconv-edge', 'densityfilter',
     'overhang', 'overhang-3d', 'soe', 'soe-general-dense', 'soe-dense-chol', 'soe-multirhs', 'static-condensation',
     'static-condensation-dense', 'static-condensation-chol', 'eigensolve', 'eigensolve-gen', 'eigensolve-flag',
@@ -427,8 +557,9 @@ def canon(v):
     return np.array(v, dtype=complex if np.iscomplexobj(v) else float)
 
 
-def close(a, b, tol=1e-9):
-    """None = zero; otherwise same shape and |a - b| <= tol * max(1, |a|, |b|)"""
+def close(a, b, tol=1e-9, floor=1.0):
+    """None = zero; otherwise same shape and |a - b| <= tol * max(floor, |a|, |b|) (floor = 1 unless the recipe changes
+    the MAGNITUDE of its data: then the comparison is relative to the result)"""
     za = a is None or not np.any(a)
     zb = b is None or not np.any(b)
     if za and zb:
@@ -439,7 +570,7 @@ def close(a, b, tol=1e-9):
         return False
     if not (np.all(np.isfinite(a)) and np.all(np.isfinite(b))):
         return False
-    scale = max(1.0, float(np.max(np.abs(a))), float(np.max(np.abs(b))))
+    scale = max(floor, float(np.max(np.abs(a))), float(np.max(np.abs(b))))
     return bool(np.max(np.abs(a - b)) <= tol * scale)
 
 
@@ -554,12 +685,18 @@ def fresh_cycle(pym, fm, recipe, data_seed, cur, seeds, pristine=None):
     return observe_all(fr)
 
 
-def compare(hist_obs, fresh_obs, tol, where, failed):
+def compare(hist_obs, fresh_obs, tol, where, failed, floor=1.0):
     for k in fresh_obs:
-        if not close(hist_obs[k][0], fresh_obs[k][0], tol):
+        if not close(hist_obs[k][0], fresh_obs[k][0], tol, floor):
             failed.append(f'{where}: state of {k} differs from the fresh network')
-        if not close(hist_obs[k][1], fresh_obs[k][1], tol):
+        if not close(hist_obs[k][1], fresh_obs[k][1], tol, floor):
             failed.append(f'{where}: sensitivity of {k} differs from the fresh network')
+        for j in (0, 1):        # the VALUE KIND (real / complex) of a result belongs to the result
+            a, b = hist_obs[k][j], fresh_obs[k][j]
+            if a is not None and b is not None and np.iscomplexobj(a) != np.iscomplexobj(b):
+                failed.append(f"{where}: {'sensitivity' if j else 'state'} of {k} is "
+                              f"{'complex' if np.iscomplexobj(a) else 'real'}-typed, {'complex' if np.iscomplexobj(b) else 'real'}"
+                              '-typed in the fresh network')
 
 
 def is_k02(recipe, e):
@@ -631,7 +768,7 @@ def run_stress(pym, fm, recipe, seed, focus, regimes, stats=None):
                 if not close(after[k][1], before[k][1]) or not close(after[k][0], before[k][0], 0.0):
                     failed.append(f'pass {len(log)}: sensitivity() without seed changed {k}')
         if check:
-            compare(observe_all(net), fresh, tol, f'pass {len(log)} {spec}', failed)
+            compare(observe_all(net), fresh, tol, f'pass {len(log)} {spec}', failed, net['floor'])
 
     design(regimes[0])
     P = pieces_of(net)
@@ -700,10 +837,12 @@ def run_lib(pym, fm, recipe, seed, nops, stats=None):
     responded = False
     for op in ops:
         if op[0] == 'set':
-            new = draw_input(g, net, op[1], op[2])
-            reshaped = np.shape(new) != np.shape(cur[op[1]])
-            cur[op[1]] = new
-            net['sigs'][op[1]].state = np.array(cur[op[1]], copy=True)
+            reshaped = False
+            for k in (sorted(net['inputs']) if net['aligned'] else [op[1]]):   # aligned: regimes of all inputs belong together
+                new = draw_input(g, net, k, op[2])
+                reshaped = reshaped or np.shape(new) != np.shape(cur[k])
+                cur[k] = new
+                net['sigs'][k].state = np.array(cur[k], copy=True)
             responded = False
             if reshaped:        # seeds of the old shape must not survive a change of shape: clean the network first
                 net['net'].reset()
@@ -729,9 +868,10 @@ def run_lib(pym, fm, recipe, seed, nops, stats=None):
     # final cycle: with new inputs and a new response, or (when the last response is still current) without one
     without_response = responded and g.random() < 0.3
     if not without_response:
+        rall = int(g.integers(0, 4)) if net['aligned'] else None
         for k in sorted(net['inputs']):
-            if g.random() < 0.5:
-                cur[k] = draw_input(g, net, k, int(g.integers(0, 3)) if g.random() < 0.5 else 0)
+            if g.random() < 0.5 or net['aligned']:
+                cur[k] = draw_input(g, net, k, rall if net['aligned'] else int(g.integers(0, 3)) if g.random() < 0.5 else 0)
                 net['sigs'][k].state = np.array(cur[k], copy=True)
         net['net'].response()
     log.append('final cycle ' + ('without' if without_response else 'with') + ' a new response')
@@ -752,7 +892,7 @@ def run_lib(pym, fm, recipe, seed, nops, stats=None):
                 stats('final-seed:' + pat)
     put_seeds(net, seeds)
     net['net'].sensitivity()
-    compare(observe_all(net), fresh_cycle(pym, fm, recipe, data_seed, cur, seeds), tol, 'final cycle', failed)
+    compare(observe_all(net), fresh_cycle(pym, fm, recipe, data_seed, cur, seeds), tol, 'final cycle', failed, net['floor'])
     return failed, dict(recipe=recipe, kind='random', seed=int(seed), nops=nops, ops=log, seeds=sorted(seeds))
 
 
@@ -893,3 +1033,66 @@ def eig_bookkeeping(pym, g, ops, generalized, nmodes=3, n=10):
                 cells.append(labels[j] if j >= 0 else [-2, -2])
             out.append(cells)
     return out
+
+
+# ---- detections of LinSolve / LDAWrapper (Model/Hist.v LinSolveDetectModel): value kind and decoupled-dof partition
+def det_sequence(g, specs, n):
+    """non-symmetric n x n matrices (class constant: general, LU), spec = (complex?, [decoupled dofs]): a decoupled dof
+    carries ONLY its diagonal entry; the other off-diagonal positions follow one random base pattern"""
+    base = g.random((n, n)) < 0.6
+    out = []
+    for cplx, dec in specs:
+        P = base.copy()
+        for d in dec:
+            P[d, :] = False
+            P[:, d] = False
+        V = g.uniform(0.2, 0.9, (n, n)) * np.where(g.random((n, n)) < 0.5, -1.0, 1.0)
+        A = np.where(P, V, 0.0)
+        np.fill_diagonal(A, 5.0 + g.random(n))
+        cp = [i for i in range(n) if i not in dec]
+        A[cp[0], cp[1]], A[cp[1], cp[0]] = 0.8, -0.4            # stays non-symmetric whatever the pattern
+        if cplx:
+            A = A + 1j * np.where(A != 0, g.uniform(0.2, 0.9, (n, n)), 0.0)
+        out.append(A)
+    return out
+
+
+def expected_partition(A):
+    """independent formula: dofs whose row and column hold nothing but a non-zero diagonal entry"""
+    A = A.toarray() if hasattr(A, 'toarray') else np.asarray(A)
+    off = A - np.diag(np.diag(A))
+    return [int(i) for i in range(A.shape[0]) if A[i, i] != 0 and not np.any(off[i, :]) and not np.any(off[:, i])]
+
+
+def det_bookkeeping(pym, g, specs, n, via, sparse):
+    """returns (matrices, observations): per matrix [kind, decoupled dofs ...]
+    via='linsolve': ONE LinSolve module (LDAWrapper inside): response on A_k; seed; sensitivity; kind = 1 iff the matrix
+                    sensitivity it returns is complex-typed (the rhs and the seed are complex whenever LinSolve accepts that,
+                    so a real-typed dA means the real part was taken); partition = solver.diagonal_idx
+    via='lda':      ONE LDAWrapper object: update(A_k); partition = diagonal_idx (no kind)"""
+    import scipy.sparse as sps
+    As = det_sequence(g, specs, n)
+    conv = (lambda M: sps.csc_matrix(M)) if sparse else (lambda M: np.array(M))
+    obs = []
+    if via == 'lda':
+        s = pym.solvers.LDAWrapper(pym.solvers.SolverSparseLU() if sparse else pym.solvers.SolverDenseLU())
+        for A in As:
+            s.update(conv(A))
+            s.solve(g.standard_normal(n))
+            obs.append([int(i) for i in np.asarray(s.diagonal_idx).ravel()])
+        return As, obs
+    sA, sb = pym.Signal('A'), pym.Signal('b')
+    m = pym.LinSolve([sA, sb], pym.Signal('u'))
+    for A in As:
+        cb = np.iscomplexobj(A) or not sparse
+        m.reset()
+        sA.state = conv(A)
+        sb.state = g.standard_normal(n) + (1j * g.standard_normal(n) if cb else 0)
+        m.response()
+        m.sig_out[0].sensitivity = g.standard_normal(n) + (1j * g.standard_normal(n) if cb else 0)
+        m.sensitivity()
+        dA = sA.sensitivity
+        idx = getattr(m.solver, 'diagonal_idx', None)
+        obs.append([int(np.iscomplexobj(dA.todense() if hasattr(dA, 'todense') and not isinstance(dA, np.ndarray) else dA))] +
+                   ([-7] if idx is None else [int(i) for i in np.asarray(idx).ravel()]))
+    return As, obs
